@@ -1378,3 +1378,35 @@ Definition ids_inv (g : gst) : Prop :=
   (NoDup (map l_id (g_logs g)) /\ Forall (fun l => l_id l < g_nlog g) (g_logs g)).
 Lemma inv_ids g : tx_inv g -> log_inv g -> ids_inv g.
 Proof. intros [A B _ _ _ _ _] [C D _ _ _ _]. split; split; auto. apply sorted_nodup; auto. Qed.
+
+(* ---------------------------------------------------------------- nextval is monotone: ids drawn later are larger *)
+Lemma tevo_new_ids l n r l' n' r' : tevo l n r l' n' r' ->
+  n <= n' /\ forall x', In x' l' -> (exists x, In x l /\ t_id x = t_id x') \/ n <= t_id x'.
+Proof.
+  induction 1 as [l n r|l n r row Hi Hp Hrv Hrl|l n r f Hf|l n r p|l n r f id k Hf Hk Hnk|l n r w|l1 n1 r1 l2 n2 r2 l3 n3 r3 _ IH1 _ IH2].
+  - split; [lia|]. intros x' Hx. left. eauto.
+  - split; [lia|]. intros x' Hx. apply in_app_iff in Hx. destruct Hx as [Hx|[Hx|[]]]; [left; eauto|right; subst; lia].
+  - split; [lia|]. intros x' Hx. apply in_map_iff in Hx. destruct Hx as [z [Hz Hin]]. subst. left. exists z. split; auto. symmetry. apply Hf.
+  - split; [lia|]. intros x' Hx. apply filter_In in Hx. left. exists x'. tauto.
+  - split; [lia|]. intros x' Hx. apply in_map_iff in Hx. destruct Hx as [z [Hz Hin]]. subst. left. exists z. split; auto. symmetry. apply Hf.
+  - split; [lia|]. intros x' Hx. apply in_map_iff in Hx. destruct Hx as [z [Hz Hin]]. subst. left. exists z. split; auto.
+  - destruct IH1 as [A1 B1], IH2 as [A2 B2]. split; [lia|]. intros x' Hx. destruct (B2 x' Hx) as [[y [Hy E]]|H]; [|right; lia].
+    destruct (B1 y Hy) as [[z [Hz E']]|H]; [left; exists z; split; auto; congruence|right; lia].
+Qed.
+
+Lemma run_tev : forall sched g, tevo (g_txs g) (g_ntx g) (g_revs g) (g_txs (run g sched)) (g_ntx (run g sched)) (g_revs (run g sched)).
+Proof.
+  induction sched as [|w r IH]; simpl; intros g; [apply te_refl|].
+  eapply te_trans; [apply step_tev|apply IH].
+Qed.
+
+(* every transaction id that appears in the table during a run is larger than every id that was there before: a request whose
+   statements all run after another one's COMMIT receives the larger id *)
+Theorem later_ids_are_larger g sched : tx_inv g ->
+  forall t t', In t (g_txs g) -> In t' (g_txs (run g sched)) -> ~ In (t_id t') (map t_id (g_txs g)) -> t_id t < t_id t'.
+Proof.
+  intros HI t t' Ht Ht' Hnew. destruct (tevo_new_ids _ _ _ _ _ _ (run_tev sched g)) as [_ H].
+  destruct (H t' Ht') as [[x [Hx E]]|Hge].
+  - exfalso. apply Hnew. rewrite <- E. apply in_map; auto.
+  - pose proof (tx_below _ _ _ HI) as B. rewrite Forall_forall in B. specialize (B t Ht). lia.
+Qed.
